@@ -103,8 +103,12 @@ def route_obs(vec):
     segno = common.use_repo()
     kind, route, opts = vec['kind'], vec['route'], sorted(vec['opts'])
     qr = segno.make(CONTENT, micro=False)
+    uri_only = VALUES.get('__uri_only__') or {}        # options of svg_data_uri that are not serialiser options
+    opts = [k for k in opts if k != '__uri_only__']
     kw = {k: VALUES[k] for k in opts}
-    o = {'_vec': vec, 'family': 'route', 'kind': kind, 'route': route, 'opts': opts, 'prefix_ok': True, 'exit': 0}
+    o = {'_vec': dict(vec, opts=opts, given=[k for k in vec['given'] if k != '__uri_only__']), 'family': 'route', 'kind': kind, 'route': route, 'opts': opts,
+         'prefix_ok': True, 'exit': 0}
+    vec = o['_vec']
     # ---- the reference the harness derives (TLC checks it is the model's): save to a stream with the effective options
     if route in ('cli', 'cli_upper_ext'):
         given = sorted(set(vec['given']))
@@ -138,9 +142,9 @@ def route_obs(vec):
                 o['prefix_ok'] = uri.startswith('data:image/png;base64,')
                 got = base64.b64decode(uri.split(',', 1)[1])
             else:
-                uri = qr.svg_data_uri(**kw)
+                uri = qr.svg_data_uri(**kw, **uri_only)
                 enc = kw.get('encoding', 'utf-8') or 'utf-8'      # encoding=None: UTF-8 without declaration
-                o['prefix_ok'] = uri.startswith('data:image/svg+xml;charset=' + enc + ',')
+                o['prefix_ok'] = uri.startswith('data:image/svg+xml,' if uri_only.get('omit_charset') else 'data:image/svg+xml;charset=' + enc + ',')
                 got = canonical_xml(urllib.parse.unquote_to_bytes(uri.split(',', 1)[1]), enc)
         elif route == 'inline':
             got = qr.svg_inline(**kw).encode(kw.get('encoding', 'utf-8') or 'utf-8')
@@ -386,6 +390,16 @@ def other_observations(tier):
                 o = route_obs_extra(vec, {'scale': sc})
                 o['_what'] = f'{kind} via {route} with scale={sc!r}'
                 obs.append(o)
+    # options of the data URI route only (omit_charset, encode_minimal): they change the URI, never the document
+    for extra in ({'omit_charset': True}, {'encode_minimal': True}, {'omit_charset': True, 'encode_minimal': True}):
+        for more in ({}, {'encoding': 'iso-8859-1', 'title': 'T\xe4'}, {'encoding': 'iso-8859-1', 'xmldecl': True}, {'title': 'Gr\xfc\xdfe \u20ac', 'desc': 'a b/c:d'},
+                     {'encoding': 'utf-16', 'xmldecl': True}, {'svgclass': 'a b', 'unit': 'mm'}):
+            segno_kw = dict(more)
+            forced = ['nl_false'] + ([] if 'xmldecl' in more else ['xmldecl_false'])
+            vec = {'kind': 'svg', 'route': 'data_uri', 'opts': [], 'given': [], 'forced': forced}
+            o = route_obs_extra(vec, dict(segno_kw, **{'__uri_only__': extra}))
+            o['_what'] = f'svg via data_uri with {more} and {extra}'
+            obs.append(o)
     # encoding=None (UTF-8 document without an encoding declaration, tests/test_svg.py::test_encoding_none) through every SVG route
     for route, forced in (('path', []), ('stream', []), ('svgz_file', []), ('svgz_stream', []), ('inline', ['xmldecl_false', 'svgns_false', 'nl_false']),
                           ('data_uri', ['xmldecl_false', 'nl_false']), ('data_uri', ['nl_false'])):
